@@ -436,9 +436,46 @@ func (fr *Frame) prepareCFG() {
 	for i := len(post) - 1; i >= 0; i-- {
 		fr.order = append(fr.order, post[i])
 	}
-	if fn.Recover != nil {
+	if fn.Recover != nil && defersMayRecover(fn) {
 		fr.unsupported = "function uses recover"
 	}
+}
+
+// defersMayRecover: go/ssa gives every function with a defer statement a Recover block; control only reaches it
+// when a deferred function calls recover(). When every deferred callee is statically known and none of them
+// contains a call of the builtin, a panic propagates as in a function without defer and the block is dead.
+func defersMayRecover(fn *ssa.Function) bool {
+	for _, b := range fn.Blocks {
+		for _, in := range b.Instrs {
+			d, ok := in.(*ssa.Defer)
+			if !ok {
+				continue
+			}
+			var callee *ssa.Function
+			switch v := d.Call.Value.(type) {
+			case *ssa.Function:
+				callee = v
+			case *ssa.MakeClosure:
+				callee, _ = v.Fn.(*ssa.Function)
+			}
+			if callee == nil || d.Call.IsInvoke() || len(callee.Blocks) == 0 {
+				return true
+			}
+			for _, cb := range callee.Blocks {
+				for _, ci := range cb.Instrs {
+					if c, ok := ci.(ssa.CallInstruction); ok {
+						if bi, ok := c.Common().Value.(*ssa.Builtin); ok && bi.Name() == "recover" {
+							return true
+						}
+						if _, isBuiltin := c.Common().Value.(*ssa.Builtin); !isBuiltin {
+							return true // a deferred function that calls on: recover could hide there
+						}
+					}
+				}
+			}
+		}
+	}
+	return false
 }
 
 // computeNonEscaping finds local allocations whose address is only used for
@@ -1192,9 +1229,15 @@ func (fr *Frame) onlyAllocWrites(li *loopInfo, s Sort) bool {
 				case *ssa.Alloc, *ssa.MakeSlice:
 					continue
 				}
+				if os.Getenv("GOVC_DEBUG") != "" {
+					fmt.Fprintf(os.Stderr, "onlyAllocWrites(%s): store %s root %T %s\n", s, x, root, root)
+				}
 				return false
 			case ssa.CallInstruction:
 				if !fr.callWritesOnlyRowsOrFresh(li, x, s) {
+					if os.Getenv("GOVC_DEBUG") != "" {
+						fmt.Fprintf(os.Stderr, "onlyAllocWrites(%s): call %s\n", s, x)
+					}
 					return false
 				}
 			}
